@@ -12,6 +12,7 @@
   replayed on the real code by E4 (directed scenarios S3, S4) and listed as known
   findings; a different violation is still reported.
 -/
+import RaftVerif.Properties.C04
 import RaftVerif.Properties.C05
 import RaftVerif.Proofs.ElectionSafety
 import RaftVerif.Proofs.LeaderSpecs
@@ -119,6 +120,26 @@ theorem C09_two_apart_quorums_can_be_disjoint :
   intro v ⟨h1, h2⟩
   simp only [List.mem_cons, List.mem_nil_iff, or_false] at h1 h2
   omega
+
+/-- **A non-voting leader does not count itself** (fix S24: `AddServer(leader, …, false)` demotes the
+    running leader, which keeps leading): for commitment it needs a `hasQuorum` set of OTHER members
+    that are voters, and a round it starts confirms its leadership only through their answers. -/
+theorem C09_nonvoting_leader_does_not_count_itself (n : Node) (now : Nat) (hnv : n.config.isVoter n.id = false)
+    (h : n.commitIndex < (n.commitStep now).1.commitIndex) :
+    n.config.hasQuorum (n.matchers (n.commitStep now).1.commitIndex).length = true ∧
+    ∀ f ∈ n.matchers (n.commitStep now).1.commitIndex, n.config.isVoter f.id = true ∧ f.id ≠ n.id := by
+  obtain ⟨_, _, e, _, _, hq, hall⟩ := C04_commit_rule n now h
+  have hs : n.selfCount = 0 := by unfold Node.selfCount; rw [hnv]; simp
+  rw [hs, Nat.zero_add] at hq
+  exact ⟨hq, fun f hf => ⟨(hall f hf).1, (hall f hf).2.1⟩⟩
+
+/-- … and the counter of a new round starts at 0 for it. -/
+theorem C09_nonvoting_leader_round_starts_empty (n : Node) (now : Nat) (hnv : n.config.isVoter n.id = false) :
+    (n.sendAEToPeers now).1.aeRounds = (n.nextRound, 0, n.readSeq) :: n.aeRounds := by
+  have := (sendAEToPeers_reads n now).2.1
+  rw [this]
+  unfold Node.selfCount
+  rw [hnv]; simp
 
 /-- the state used by the S3 witness: a leader of five voters that has committed in its term -/
 def exS3 : Node :=
